@@ -6,7 +6,8 @@
    history es, so quantifying over es quantifies over all orders of these events. *)
 From Coq Require Import String.
 From PDV Require Import lib.Base gen.Gen_C08 gen.Gen_C09 model.C08_Steps model.C08_Builder model.C09_OpCtl
-     proof.C08_BuilderProof proof.C09_StatusProof proof.C09_CtlProof proof.C09_OwnProof proof.C09_Skel.
+     proof.C08_BuilderProof proof.C09_StatusProof proof.C09_CtlProof proof.C09_LeftProof proof.C09_StaleProof
+     proof.C09_OwnProof proof.C09_Skel.
 Local Open Scope Z_scope.
 
 (* ---- status_paths: on the matrix regenerated from status.go ---- *)
@@ -98,29 +99,74 @@ Theorem C09_joint_state_admits_only_leave :
     (forall t p, apply_cmd r (CChangePeer t p) = None) /\ (forall c cs, apply_cmd r (CChangePeerV2 (c :: cs)) = None).
 Proof. intros r H. split; intros; [apply joint_state_admits_only_leave|apply joint_state_refuses_enter]; exact H. Qed.
 
-(* ---- not yet proved (Pass B), visible and listed under "todo" in checks/C09.json ---- *)
-(* an operator that leaves the running set is in an end status and GetOperatorStatus remembers it *)
-Definition C09_left_running_is_ended_and_recorded_todo : Prop :=
+(* ---- left_running_is_ended: every history, every next event: an operator that was in the running set and is
+        not any more is in an end status (and, by C09_status_paths / C09_ended_stays, keeps it) ---- *)
+Theorem C09_left_running_is_ended :
   forall maxw es e rid id,
-    let c := run_state ctl_step (init maxw) es in
-    In (rid, id) (running c) -> ~ In (rid, id) (running (fst (ctl_step c e))) ->
-    exists o, get_op (fst (ctl_step c e)) id = Some o /\ is_end_status (o_st o) = true.
+    In (rid, id) (running (run_state ctl_step (init maxw) es)) ->
+    ~ In (rid, id) (running (fst (ctl_step (run_state ctl_step (init maxw) es) e))) ->
+    exists o, get_op (fst (ctl_step (run_state ctl_step (init maxw) es) e)) id = Some o /\ is_end_status (o_st o) = true.
+Proof. exact left_running_is_ended_pf. Qed.
+
+(* the running set is keyed by the operator's own region, in every reachable state *)
+Theorem C09_running_keyed_by_own_region :
+  forall maxw es rid id o,
+    In (rid, id) (running (run_state ctl_step (init maxw) es)) ->
+    get_op (run_state ctl_step (init maxw) es) id = Some o -> o_rid o = rid.
+Proof. exact running_keyed_pf. Qed.
+
+(* ---- foreign_change_cancels ---- *)
+(* Operator.ConfVerChanged never exceeds what the passed steps account for plus what the current step counts *)
+Theorem C09_conf_ver_changed_bound :
+  forall o r s, nth_error (o_steps o) (o_cur o) = Some s ->
+    op_conf_ver_changed o r <= accounted (o_steps o) (o_cur o) + conf_ver_changed r s.
+Proof. exact op_cvc_bound. Qed.
+
+(* partial: whenever the current (unfinished) step counts nothing — true for every step kind except a
+   ChangePeerV2Leave with pending demotions (S2) and a RemovePeer naming another peer id — a heartbeat in
+   which the step's precondition fails, or conf_ver is ahead of what the passed steps account for, ends the operator *)
+Theorem C09_foreign_change_cancels_partial :
+  forall c rid id o r,
+    NoDup (map fst (running c)) ->
+    alist_get (running c) rid = Some id -> get_op c id = Some o -> o_rid o = rid ->
+    alist_get (truth c) rid = Some r ->
+    0 <= conf_ver r - o_cv o < two64 ->
+    o_st (fst (op_check o r)) = STARTED ->
+    forall s, snd (op_check o r) = Some s ->
+    conf_ver_changed r s = 0 ->
+    (is_some (check_safety r s) = true \/ accounted (o_steps o) (o_cur (fst (op_check o r))) < conf_ver r - o_cv o) ->
+    forall c', c' = fst (ctl_step c (EHeartbeat rid)) ->
+    alist_get (running c') rid <> Some id \/ exists o', get_op c' id = Some o' /\ is_end_status (o_st o') = true.
+Proof. exact foreign_change_cancels_pf. Qed.
+
+(* full statement (without the proviso): refuted by a state in which S2 makes the stale test blind — a state the
+   stores cannot produce (C09_joint_state_admits_only_leave), which is why no wrong decision of the real controller
+   was observed *)
+Definition C09_foreign_change_cancels_full : Prop :=
+  forall c rid id o r s,
+    alist_get (running c) rid = Some id -> get_op c id = Some o -> alist_get (truth c) rid = Some r ->
+    o_st (fst (op_check o r)) = STARTED -> snd (op_check o r) = Some s ->
+    accounted (o_steps o) (o_cur (fst (op_check o r))) < conf_ver r - o_cv o ->
+    alist_get (running (fst (ctl_step c (EHeartbeat rid)))) rid <> Some id.
+
+Theorem C09_foreign_change_cancels_refuted : ~ C09_foreign_change_cancels_full.
+Proof.
+  intros F. destruct s2_not_cancelled as (H1 & _ & _ & H4 & _).
+  apply (F s2_ctl 1 1 (Opr 1 1 6 1 [s2_step'] 0 STARTED 1 false 1 false false) s2_region' s2_step'); try reflexivity; try exact H4; try exact H1.
+Qed.
+
+(* ---- not yet proved, visible and listed under "todo" in checks/C09.json ---- *)
+(* the end status of an operator that left the running set is what GetOperatorStatus reports for its region until
+   another operator of that region is buried (checked on the real controller by the monitor, not proved on the model) *)
+Definition C09_left_running_is_recorded_todo : Prop :=
+  forall maxw es rid id st,
+    alist_get (records (run_state ctl_step (init maxw) es)) rid = Some (id, st) ->
+    exists o, get_op (run_state ctl_step (init maxw) es) id = Some o /\ o_st o = st /\ is_end_status st = true /\ o_rid o = rid.
 
 (* own steps, any number of stores, outside the refuted class *)
 Definition C09_own_steps_never_stale_general_todo : Prop :=
   forall r0 g ss, nodup_stores (peers r0) = true -> plan_ok g r0 ss = true -> readded_same_id ss = false ->
                   plan_runs_ok r0 ss = true.
-
-(* a foreign configuration change is noticed at the next heartbeat *)
-Definition C09_foreign_change_cancels_todo : Prop :=
-  forall c rid id o r,
-    alist_get (running c) rid = Some id -> get_op c id = Some o -> o_st o = STARTED ->
-    alist_get (truth c) rid = Some r ->
-    let '(o1, st) := op_check o r in
-    o_st o1 = STARTED ->
-    (match st with Some s => is_some (check_safety r s) | None => false end = true
-     \/ accounted (o_steps o) (o_cur o1) < conf_ver r - o_cv o) ->
-    alist_get (running (fst (ctl_step c (EHeartbeat rid)))) rid <> Some id.
 
 (* non-vacuity: a joint plan runs to SUCCESS through the controller; a higher-priority operator replaces a running one *)
 Example C09_nonvacuous :
@@ -147,3 +193,8 @@ Print Assumptions C09_own_steps_never_stale_refuted.
 Print Assumptions C09_refutation_plan_is_the_builders.
 Print Assumptions C09_unapplied_step_counts_nothing_refuted.
 Print Assumptions C09_joint_state_admits_only_leave.
+Print Assumptions C09_left_running_is_ended.
+Print Assumptions C09_running_keyed_by_own_region.
+Print Assumptions C09_conf_ver_changed_bound.
+Print Assumptions C09_foreign_change_cancels_partial.
+Print Assumptions C09_foreign_change_cancels_refuted.
